@@ -7,6 +7,7 @@
 -/
 import TjdModel.Autojac.Leaves
 import TjdLemmas.C12Lemmas
+import TjdLemmas.C12Extra
 namespace Tjd.Props.C12
 open Tjd.Leaves
 
@@ -84,5 +85,14 @@ example :
     let G : Graph := [⟨false, [some (1, 0), some (1, 1)]⟩, ⟨false, [some (2, 0)]⟩, ⟨true, []⟩]
     descendantAccs G [(0, 0)] [(1, 0)] = [2] ∧ descendantAccs G [(0, 0)] [(1, 0), (1, 1)] = [] := by
   decide
+
+/-- A LOSS THAT DOES NOT PASS THROUGH THE FEATURES (a pure regulariser, a head reading `features.detach()`): if no root is
+    excluded and no node reachable from the roots has an edge into an excluded tensor, the exclusion list is irrelevant — the
+    default task parameters are ALL the leaves of the loss (and the call is legal: nothing requires a loss to meet a feature) -/
+theorem exclusion_irrelevant_when_never_met (G : Graph) (roots excl : List (Nat × Nat)) (hG : Closed G)
+    (hr : ∀ r ∈ roots, r.1 < G.length) (hroots : ∀ r ∈ roots, r ∉ excl)
+    (hmeet : ∀ r ∈ roots, ∀ b, Reaches G [] r.1 b → ∀ e ∈ edgesOf G b, e ∉ excl) (n : Nat) :
+    n ∈ descendantAccs G roots excl ↔ n ∈ descendantAccs G roots [] := by
+  exact exclusion_irrelevant_c12x G roots excl hG hr hroots hmeet n
 
 end Tjd.Props.C12
